@@ -128,7 +128,8 @@ def _prepare(fn, binding):
     assigned = _assigned_names(body)
     mapping, prelude = {}, []
     for p, arg in binding.items():
-        simple = isinstance(arg, (ast.Name, ast.Constant)) or (isinstance(arg, ast.Attribute) and _is_path(arg))
+        simple = isinstance(arg, (ast.Name, ast.Constant)) or (isinstance(arg, ast.Attribute) and _is_path(arg)) or \
+            (isinstance(arg, ast.Subscript) and isinstance(arg.value, ast.Name) and isinstance(arg.slice, ast.Constant))
         if p in assigned or not simple:
             tmp = f"__h{k}_{p}"
             prelude.append(ast.Assign(targets=[ast.Name(id=tmp, ctx=ast.Store())], value=copy.deepcopy(arg), lineno=0, col_offset=0))
@@ -339,6 +340,33 @@ class Inliner:
                         return [s2]
                     res = None if isinstance(s, ast.Expr) else f"__h{k}_result"
                     t = tailify(body, res)
+                    # `a, b = helper()` with `return x, y` everywhere: assign element-wise (keeps each value's provenance visible)
+                    if t is not None and isinstance(s, ast.Assign) and len(s.targets) == 1 and isinstance(s.targets[0], ast.Tuple):
+                        tg = s.targets[0].elts
+                        ok_all = [True]
+
+                        def split(stmts):
+                            out = []
+                            for x in stmts:
+                                if isinstance(x, ast.Assign) and len(x.targets) == 1 and isinstance(x.targets[0], ast.Name) and x.targets[0].id == res:
+                                    if isinstance(x.value, ast.Tuple) and len(x.value.elts) == len(tg):
+                                        for a_, v_ in zip(tg, x.value.elts):
+                                            out.append(ast.copy_location(ast.Assign(targets=[copy.deepcopy(a_)], value=v_, lineno=0, col_offset=0), x))
+                                    else:
+                                        ok_all[0] = False
+                                        out.append(x)
+                                elif isinstance(x, ast.If):
+                                    x2 = copy.copy(x)
+                                    x2.body, x2.orelse = split(x.body), split(x.orelse)
+                                    out.append(x2)
+                                else:
+                                    out.append(x)
+                            return out
+                        t2 = split(t)
+                        if ok_all[0]:
+                            self.used.add(helper.qual)
+                            t2 = self._block(t2, owner, depth, stack)
+                            return [ast.copy_location(x, s) for x in prelude] + t2
                     if t is not None:
                         self.used.add(helper.qual)
                         t = self._block(t, owner, depth, stack)       # nested helper calls inside the spliced body were handled by _helper_body
